@@ -5,8 +5,8 @@ import vlib
 from vlib import NoVerdict, log
 
 CFG = {
-    "C17": dict(quick=["MCSigner_c17q", "MCSigner_c17c"], thorough=["MCSigner_c17t", "MCSigner_c17c"], mode="c17", formula="TC17"),
-    "C18": dict(quick=["MCSigner_c18a", "MCSigner_c18b"], thorough=["MCSigner_c18t"], mode="c18", formula="TC18"),
+    "C17": dict(quick=["MCSigner_c17q", "MCSigner_c17c", "MCSigner_c17d"], thorough=["MCSigner_c17t", "MCSigner_c17c", "MCSigner_c17d"], mode="c17", formula="TC17"),
+    "C18": dict(quick=["MCSigner_c18a", "MCSigner_c18b", "MCSigner_c18h"], thorough=["MCSigner_c18t", "MCSigner_c18h"], mode="c18", formula="TC18"),
 }
 TRACE_CFG = """SPECIFICATION TraceSpec
 CONSTANTS
@@ -15,9 +15,12 @@ CONSTANTS
   Bundles = {}
   BackoffCfgs = {}
   Attempts = {}
+  Ctxs = {}
+  Hists = {}
 """
 HS = os.path.join(vlib.HARNESS, "signer")
 CHUNK = 40000          # events per TLC trace-validation run
+CONFIRM_TLS = 16       # TLS cases are re-executed in a process of their own (with the recorded history of TLS configurations)
 CONFIRM_MAX = 60       # rejected cases re-executed before they are reported
 
 
@@ -103,6 +106,8 @@ def sanity(traces):
             e = r["e"]
             if e["op"] == "construct" and e["err"] and len(r0["eps"]) > 0:
                 raise NoVerdict("NewSigner refused a valid configuration written by the harness: %s" % json.dumps(r0.get("info")))
+            if e["op"] == "otherconf" and e["err"]:
+                raise NoVerdict("a history step (another TLS configuration over valid files) failed: %s" % json.dumps(r0.get("info"))[:400])
             if e["op"] == "contact" and e["hs"] == "pending":
                 raise NoVerdict("a harness server did not finish a handshake in time (trace %s)" % r0.get("tid"))
 
@@ -141,6 +146,8 @@ def vkey(trace, li):
     k = "sign n=%d via=%s eps=%s" % (len(r0["eps"]), info.get("via", "?"), eps)
     if r0["bundle"]["cas"]:
         k += " bundle=%s/%s" % ("+".join(r0["bundle"]["cas"]), r0["bundle"]["lay"])
+    if r0.get("ctx", "wide") != "wide" or r0.get("hist", "none") != "none":
+        k += " ctx=%s hist=%s" % (r0.get("ctx", "wide"), r0.get("hist", "none"))
     if e["op"] == "return":
         return k + " rej=return err=%s pan=%s certs=%d" % (str(e["err"]).lower(), str(e["pan"]).lower(), len(e["certs"]))
     if e["op"] == "contact":
@@ -150,7 +157,17 @@ def vkey(trace, li):
 
 def case_of(trace):
     r0 = trace[0]
-    return {"eps": r0["eps"], "bundle": r0["bundle"], "info": r0.get("info")}
+    return {"eps": r0["eps"], "bundle": r0["bundle"], "ctx": r0.get("ctx", "wide"), "hist": r0.get("hist", "none"), "info": r0.get("info")}
+
+
+def proc_key(c):
+    """Cases that may share one harness process.  TLS configuration is process-global state of the code under test's
+    helpers, so the history of CA files read in a process is part of the case: cases without history share a process only
+    with cases over the same CAs; a case with a history step gets a process per (bundle, history kind)."""
+    cas = tuple(sorted(c["bundle"]["cas"]))
+    if c.get("hist", "none") == "none":
+        return ("pure", cas, "", "")
+    return ("hist", cas, c["bundle"]["lay"], c["hist"])
 
 
 def judge(prop, verdict, sbin, bbin, traces, label, stats):
@@ -184,27 +201,37 @@ def judge(prop, verdict, sbin, bbin, traces, label, stats):
     if sign_ti:
         todo = sign_ti[:CONFIRM_MAX]
         wd = vlib.workdir(prop, "confirm_" + label)
-        for mode in ("c17", "c18"):
-            sel = [ti for ti in todo if ((traces[ti][0].get("info") or {}).get("via") == "tls") == (mode == "c18")]
-            if not sel:
-                continue
-            ts, _ = run_signer(prop, sbin, wd, {"mode": mode, "cases": [], "random": 0, "n0": False, "lanes": 4, "tryms": 2000,
-                                                 "replays": [case_of(traces[ti]) for ti in sel]}, "confirm_" + mode)
+        def outcome(t, ti):
+            rej2, _, _ = tlc_judge(prop, [t], label + "_confirm")
+            if rej2:
+                confirmed.append((t, min(li for (_, li) in rej2)))
+            else:
+                stats["flaky"] += 1
+                log("not reproduced on re-execution (timing), discarded: %s" % vkey(traces[ti], first[ti]))
+        sel = [ti for ti in todo if (traces[ti][0].get("info") or {}).get("via") != "tls"]
+        if sel:
+            ts, _ = run_signer(prop, sbin, wd, {"mode": "c17", "cases": [], "random": 0, "n0": False, "lanes": 4, "tryms": 2000,
+                                                 "replays": [case_of(traces[ti]) for ti in sel]}, "confirm_c17")
             sanity(ts)
-            rej2, _, _ = tlc_judge(prop, ts, label + "_confirm_" + mode)
-            f2 = {}
-            for (tj, li) in rej2:
-                f2.setdefault(ts[tj][0]["tid"], li)
             bytid = {t[0]["tid"]: t for t in ts}
             for j, ti in enumerate(sel):
-                tid = "p%d" % j
-                if tid not in bytid:
-                    raise NoVerdict("re-execution lost case %s" % tid)
-                if tid in f2:
-                    confirmed.append((bytid[tid], f2[tid]))
-                else:
-                    stats["flaky"] += 1
-                    log("not reproduced on re-execution (timing), discarded: %s" % vkey(traces[ti], first[ti]))
+                if "p%d" % j not in bytid:
+                    raise NoVerdict("re-execution lost case p%d" % j)
+                outcome(bytid["p%d" % j], ti)
+        # a TLS case is re-executed alone in a fresh process that first re-creates the recorded history of TLS configurations
+        tsel = [ti for ti in todo if (traces[ti][0].get("info") or {}).get("via") == "tls"]
+        bykey0 = {}
+        for ti in tsel:
+            bykey0.setdefault(vkey(traces[ti], first[ti]).split(" rej=")[0], ti)
+        tsel = sorted(bykey0.values())[:CONFIRM_TLS]
+        for j, ti in enumerate(tsel):
+            c = case_of(traces[ti])
+            ts, _ = run_signer(prop, sbin, wd, {"mode": "c18", "cases": [], "random": 0, "n0": False, "lanes": 1, "tryms": 2000,
+                                                 "preload": (c.get("info") or {}).get("loaded0") or [], "replays": [c]}, "confirm_c18_%d" % j)
+            sanity(ts)
+            if len(ts) != 1:
+                raise NoVerdict("re-execution lost a TLS case")
+            outcome(ts[0], ti)
         if len(sign_ti) > CONFIRM_MAX:
             log("%d further rejected cases were not re-executed" % (len(sign_ti) - CONFIRM_MAX))
     for ti in bo_ti:
@@ -243,7 +270,7 @@ def replay(prop, path):
     else:
         mode = "c18" if info.get("via") == "tls" else "c17"
         ts, _ = run_signer(prop, sbin, wd, {"mode": mode, "cases": [], "random": 0, "n0": False, "lanes": 1, "tryms": 3000,
-                                             "replays": [case_of(recs)]}, "replay")
+                                             "preload": info.get("loaded0") or [], "replays": [case_of(recs)]}, "replay")
     for t in ts:
         for r in t[1:]:
             log("replayed: %s" % json.dumps(r["e"]))
@@ -258,7 +285,7 @@ def run(prop, tier):
     verdict = vlib.Verdict(prop)
     stats = {"events": 0, "traces": 0, "flaky": 0}
     tot_states = tot_trans = 0
-    samples, ncases, ncontacts, nrandom, nbo = [], 0, 0, 0, 0
+    samples, ncases, ncontacts, nrandom, nbo, nprocs = [], 0, 0, 0, 0, 0
     distinct = set()
 
     # 1. the property on the bounded model, first; the model's configurations are the replay plan
@@ -278,11 +305,25 @@ def run(prop, tier):
         nrand = 0
         if ci == 0:
             nrand = {"C17": (400, 6000), "C18": (300, 4000)}[prop][tier == "thorough"]
-        plan = {"mode": conf["mode"], "cases": cases, "random": nrand, "n0": prop == "C17" and ci == 0, "replays": [],
-                "lanes": 48 if prop == "C17" else 8, "tryms": 500}
-        traces, summ = run_signer(prop, sbin, wd, plan, "main")
-        if summ["cases"] != len(cases) + nrand + (4 if plan["n0"] else 0) or len(traces) != summ["cases"]:
-            raise NoVerdict("the harness did not execute every planned case (%s of %d)" % (summ.get("cases"), len(cases) + nrand))
+        groups = {}
+        for c in cases:
+            groups.setdefault(proc_key(c), []).append(c)
+        pure = [k for k in groups if k[0] == "pure"]
+        traces, nplanned, ncon = [], 0, 0
+        for gi, k in enumerate(sorted(groups)):
+            share = 0
+            if nrand and k in pure:
+                share = nrand // len(pure) + (nrand % len(pure) if k == sorted(pure)[0] else 0)
+            plan = {"mode": conf["mode"], "cases": groups[k], "random": share, "n0": prop == "C17" and ci == 0 and gi == 0, "replays": [],
+                    "lanes": (48 if prop == "C17" else 8) if k[0] == "pure" else 1, "tryms": 500, "onlycas": list(k[1])}
+            ts, summ = run_signer(prop, sbin, wd, plan, "main%d" % gi)
+            want = len(groups[k]) + share + (4 if plan["n0"] else 0)
+            if summ["cases"] != want or len(ts) != want:
+                raise NoVerdict("the harness did not execute every planned case (%s of %d)" % (summ.get("cases"), want))
+            traces += ts
+            ncon += summ["contacts"]
+        summ = {"contacts": ncon}
+        nprocs += len(groups)
         ncases += len(traces)
         ncontacts += summ["contacts"]
         nrandom += nrand
@@ -318,7 +359,7 @@ def run(prop, tier):
     cov = {"states": tot_states, "transitions": tot_trans, "traces_validated_against_impl": stats["traces"],
            "samples": samples, "exhaustive": True, "model_cfgs": conf[tier],
            "configurations_replayed": ncases - nrandom, "random_cases": nrandom, "backoff_inputs": nbo, "backoff_draws_each": 200 if nbo else 0,
-           "endpoint_contacts_observed": ncontacts, "evaluations": stats["events"], "distinct_nontrivial": len(distinct),
+           "endpoint_contacts_observed": ncontacts, "harness_processes": nprocs, "evaluations": stats["events"], "distinct_nontrivial": len(distinct),
            "rule": "every configuration of the bounded model (endpoint list x outcome / identity classes x bundle) is executed on the real "
                    "(*Signer).Sign with harness CA servers; every recorded step (what each server saw, what Sign returned, extremes of the "
                    "backoff draws) is judged by TLC with the property's step formula; distinct_nontrivial = distinct observed step labels",
